@@ -200,7 +200,7 @@ def fixed_expectation_programs():
         for k, src in v.items():
             out.append(("scenario%d:%s" % (i, k), src, ("ok", list(expected))))
     # the same grid with the variable named like a built-in global (a local or a parameter called `type` is an ordinary variable)
-    return out + resolution_grid() + [p for nm in BUILTIN_NAMES for p in resolution_grid(nm)] + deep_nesting_programs() + self_reference_programs()
+    return out + resolution_grid() + [p for nm in BUILTIN_NAMES for p in resolution_grid(nm)] + deep_nesting_programs() + self_reference_programs() + catch_variable_programs()
 
 
 def self_reference_programs():
@@ -225,6 +225,29 @@ def self_reference_programs():
                        "  var label = \"reuse 1\"; var other = \"reuse 2\"; var third = [label, other];\n  print(label);\n  print(%s);\n  return %s;\n}\n"
                        "var c = make();\nvar pad1 = \"p\"; print(%s);\n" % (op, decl, esc % name, cl, call % got, got, call % "c"))
                 progs_.append(("selfref:%s:%s:%s" % (dn, sn, wn), src, ("ok", ["reuse 1", exp, exp])))
+    return progs_
+
+
+def catch_variable_programs():
+    """The variable of a catch clause is a variable like any other: closures made in the catch block share it (a write through one is read
+    through the other), keep it after the block has ended - however it ended: normally, by break, continue, return - and after its slot
+    has been taken by other variables; each pass of a loop has its own."""
+    progs_ = []
+    ends = [("normal", "", "fn"), ("break", "break;", "loop"), ("continue", "continue;", "loop"), ("return", "return [get, set];", "fn")]
+    for en, stmt, ctx_ in ends:
+        body = "try { throw \"first\"; } catch e { get = || e; set = |v| { e = v; }; %s }" % stmt
+        if ctx_ == "loop":
+            body = "for once in 0..1 { %s }" % body
+        src = ("fn remember() {\n  var get = nil; var set = nil;\n  %s\n  var unrelated = \"unrelated\"; var more = [1, 2];\n  return [get, set];\n}\n"
+               "var p = remember(); var pad = \"pad\";\nprint(p[0]()); p[1](\"second\"); print(p[0]()); var q = remember(); print(q[0]()); print(p[0]());\n" % body)
+        progs_.append(("catchvar:" + en, src, ("ok", ["first", "second", "first", "second"])))
+    src = ("fn collect(values) {\n  var kept = []; var i = 0;\n  while i < values.len() {\n    try { if values[i] % 2 == 1 { throw \"odd \" + String.from(values[i]); } }\n"
+           "    catch problem { kept.push(|| problem); }\n    i = i + 1;\n  }\n  var after = \"after\";\n  return kept;\n}\n"
+           "var ks = collect([1, 2, 3, 5]); var out = []; for k in ks { out.push(k()); } print(out);\n")
+    progs_.append(("catchvar:per-pass", src, ("ok", ["[odd 1, odd 3, odd 5]"])))
+    src = ("fn nested() {\n  var fs = [];\n  try { throw \"outer\"; } catch a {\n    try { throw \"inner\"; } catch b { fs.push(|| a + \"/\" + b); }\n    fs.push(|| a);\n  }\n"
+           "  var x = 1; var y = 2;\n  return fs;\n}\nvar fs = nested(); print(fs[0]()); print(fs[1]());\n")
+    progs_.append(("catchvar:nested", src, ("ok", ["outer/inner", "outer"])))
     return progs_
 
 
